@@ -79,6 +79,22 @@ CLAIMED = {
             "(≈18k cells quick) + random ill-typed streams + full-stack engine runs; oracle primitives answered by CPython; the model's own 'unmodelled' outcome (escaped generators, %-formatting, …) is "
             "excluded from the totality statement and counted in the evidence. View filters: see C10. parse_generic_csv / CLI survival is decided by the implementation oracle. Defect D8 repaired by a fix: commit.",
             "DESIGN.md §5 C08"),
+    'C03': ("Lean 4 theorems about the whitelist walk + kernel-decided obligations over tables regenerated from expr_parser.py + payload correspondence under an audit-hook monitor",
+            "Proof: validate_iff (validate_ast accepts a tree iff every node anywhere in it has a whitelisted kind — every tree), whitelist_reviewed / accepted_trees_are_reviewed (the regenerated whitelist "
+            "contains only reviewed-safe kinds: no Lambda, Dict, Set, List, Tuple, f-strings, Starred, Slice, keyword, Await/Yield, Pow, bit ops, Is …), capabilities_reviewed (every getattr/hasattr, import and "
+            "dangerous builtin in expr_parser.py is a reviewed one), dispatch_closed, string_methods_closed, function_names_reviewed. Closure over safe values is by the TYPE of the evaluator model's values "
+            "(no constructor for types, functions, methods, modules, frames).",
+            "Trusted: Lean kernel; the expr_tables translator (Python ast); faithfulness of the evaluator model = payload correspondence (≈2.7k payloads quick: classic escapes, every dir() attribute name × 23 receiver "
+            "shapes, splices; thorough: all combinations) with outcome class + value compared; implementation monitor: PEP 578 audit events (no import/open/exec/compile outside ast.parse/os/subprocess/socket/ctypes), "
+            "closed result-type set, no interpreter internals in strings, stdin/stdout untouched, deep-equality of transaction/rows/AST. Resource exhaustion is outside the property.",
+            "DESIGN.md §5 C03"),
+    'C04': ("Lean 4 laws proved on the evaluator model for every oracle family, context and scope + differential evaluator correspondence + the laws as metamorphic oracle on the real evaluator",
+            "Proof: not_not, and/or_short_circuit, de_morgan_and/or (value, errors, order and scope), and_comm/or_comm (quiet operands), div_zero, chain_eq_conj, chain_stops, name_case, attr_case, "
+            "contains/startswith/normalized/str_eq/str_in _ci (ASCII letter case, from kernel-decided facts on the 128 code points), regex_uses_oracle, date_vs_iso, date_vs_bad_iso, date_parts, weekday_range, "
+            "loop_quiet / loop_collect_spec (comprehension = filter∘map, scope restored), loop_any_spec, walrus_binds, walrus_then_name; binder_leak_observation is the recorded scope quirk.",
+            "Trusted: Lean kernel; Model/Expr.lean is a hand model of TransactionEvaluator tied by differential runs (type-directed random stream, all ≤1-operator expressions × boundary transactions here; the exhaustive "
+            "operator×type table in C08); regex case-insensitivity and non-ASCII case mapping are oracle laws exercised on CPython; whole-tree name-case invariance is proved per node (name_case, attr_case), not as one induction.",
+            "DESIGN.md §5 C04"),
 }
 
 PENDING_REASON = "not claimed yet: model/theorems for this property are still being built (see DESIGN.md §7 build order); no check is registered until it is sound"
